@@ -11,6 +11,7 @@ pub mod registry;
 pub mod scn_basic;
 pub mod scn_c13;
 pub mod scn_conc;
+pub mod scn_c09;
 pub mod scn_c14;
 pub mod scn_seq;
 pub mod scn_c18;
